@@ -168,10 +168,14 @@ impl UnaryPreAggFunction for ParseLogfmt {
             logfmt::parse(inp.trim_end())
         };
         let res = {
-            pairs.into_iter().fold(rec, |record, pair| match pair.val {
-                None => record.put(&pair.key, data::Value::None),
-                Some(val) => record.put(&pair.key, data::Value::from_string(val)),
-            })
+            pairs
+                .into_iter()
+                // text without any pair comes back from the parser as one pair without key or value
+                .filter(|pair| !(pair.key.is_empty() && pair.val.is_none()))
+                .fold(rec, |record, pair| match pair.val {
+                    None => record.put(&pair.key, data::Value::None),
+                    Some(val) => record.put(&pair.key, data::Value::from_string(val)),
+                })
         };
         Ok(Some(res))
     }
